@@ -46,7 +46,15 @@ def _worker(args):
     f = factsmod.load(config, th)
     sub = SubRun()
     t0 = time.time()
-    ENGINES[engine](f, sub, prop)
+    try:
+        ENGINES[engine](f, sub, prop)
+    except Exception as e:      # an internal error of the analysis on an unforeseen construct
+        import traceback
+        tb = traceback.format_exc().strip().splitlines()
+        sys.stderr.write("[%s] engine %s failed on configuration %s: %s\n  %s\n" % (prop, engine, config, e, "\n  ".join(tb[-6:])))
+        # the engine decided nothing for this configuration: say so in the evidence; what it had found so far is kept
+        sub.stats["engine_error"] = "%s: %s @ %s" % (type(e).__name__, e, tb[-3].strip() if len(tb) >= 3 else "")
+        sub.obligations += 1
     sub.stats["wall_s"] = round(time.time() - t0, 1)
     return config, sub
 
